@@ -510,6 +510,18 @@ func generate(cfg *hx.Config, emit func(kind string, in []string)) {
 		cfg.Count(fmt.Sprintf("rate-rel%d-conc%d", k%4, (k/4)%2))
 		slow = append(slow, in)
 	}
+	// start-of-response vs action-time locking on a shared shape: many short concurrent rounds
+	nst := 2
+	if cfg.Thorough() {
+		nst = 8
+	}
+	for k := 0; k < nst; k++ {
+		r := rng.Fork()
+		in := []string{"R", fmt.Sprintf("S:%s:0", hx.HexS(rxA)), fmt.Sprintf("T:%s:1000000", hx.HexS([]string{"0-", "3-"}[k%2])),
+			fmt.Sprintf("H:%d:0:-1", r.Intn(8)), "|", fmt.Sprintf("n:%d", r.Range(8, 40)), fmt.Sprintf("c:%d", r.Range(6, 12)), "rep:300"}
+		slow = append(slow, in)
+		cfg.Count("rate-stress")
+	}
 	nis := 2
 	if cfg.Thorough() {
 		nis = 12
@@ -529,6 +541,9 @@ func generate(cfg *hx.Config, emit func(kind string, in []string)) {
 			defer wg.Done()
 			sem <- struct{}{}
 			t0 := time.Now()
+			if os.Getenv("VERIF_C18_TRACE") != "" {
+				fmt.Fprintf(os.Stderr, "slowstart%d %s\n", i, strings.Join(slow[i], " "))
+			}
 			outs[i] = runCase(slow[i])
 			if os.Getenv("VERIF_C18_TRACE") != "" {
 				fmt.Fprintf(os.Stderr, "slow%d took %s: %s\n", i, time.Since(t0), strings.Join(slow[i][:6], " "))
